@@ -4,6 +4,7 @@
 -/
 import Rsactor.Inv.Cap
 import Rsactor.Ties.send_paths_shape
+import Rsactor.Inv.Progress
 
 namespace Rsactor.Props.C09
 open Rsactor Rsactor.Model Rsactor.Extracted
@@ -74,6 +75,17 @@ theorem full_mailbox_waits (s : Sys) (h : Nat) (op : OpSpec) (it : Item) (hh : (
       s'.client s.nextOid = .waiting ∧ s'.dead = s.dead ∧ s'.mbox = s.mbox := by
   simp only [step?, Sys.issue, hh, if_true, hit, ho, not_true_eq_false, if_false, hfull]
   exact ⟨_, rfl, by simp, by simp [setF], rfl, rfl⟩
+
+/-- `no_idle_slot`: "a send never waits while a slot is free", as a fact about every reachable state: while the mailbox is
+    open, if any sender is queued without a permit then every slot is occupied or promised - items in the mailbox plus
+    permits handed out equal the capacity. -/
+theorem no_idle_slot (cap : Nat) (sc : Script) (ls : List Label) (s : Sys)
+    (hr : run? (init cap sc) ls = some s) (ho : s.rxOpen = true) (hu : ∃ w ∈ s.waiters, w.granted = false) :
+    s.mbox.length + grantedCount s.waiters = cap := by
+  obtain ⟨⟨_, _, hc, hn, _⟩, hcap⟩ := AllInv_run cap sc ls s hr
+  have h1 := hn ho hu
+  have h2 := hc.1
+  omega
 
 /-- the control channel holds exactly one signal -/
 theorem term_channel_capacity : term_chan_cap = 1 := rfl
